@@ -446,7 +446,8 @@ class Inliner:
             self._fused[abi] = st
             self._fused[(abi, "fused")] = st
             self.inlined.append("<iter::%s>" % aname)
-            self.absorbed.add(ck)
+            if ck != "<fn>":
+                self.absorbed.add(ck)
         S, CL, aname, ck, cop = st
         clop = copy.deepcopy(cop) if CL is None else _cp(CL)
         by_ref = self.FUSABLE[aname]
@@ -470,7 +471,7 @@ class Inliner:
         self.blocks[sw]["term"] = {"k": "switch", "op": _mv(dl), "dty": "isize", "vals": [0], "tgts": [end], "otherwise": body, "line": line, "exp": False}
         _finish(self, end, t, _agg(OPT, "None", 0, []))
         item = _variant_field({"l": nx, "p": []}, "Some", 1, OPT)
-        rl = self._new_local(self.src[ck].locals[0]["ty"])
+        rl = self._new_local(self._ret_ty(ck))
         after = self._new_block(d, ch, cleanup, line)
         val = _ref_of(self, body, copy.deepcopy(item), line) if by_ref else _mvp(copy.deepcopy(item))
         self._call_closure(body, ck, clop, [val], rl, after, t.get("unwind"), line)
@@ -546,7 +547,8 @@ class Inliner:
                 fobj = self.src.get(fk)
                 if fobj is not None and self.policy(fobj, 0):
                     return fk, op
-                return None, None
+                # any other function item (std / third-party / a kept workspace function): the expansion calls it
+                return "<fn>", op
             return (k, op) if k in self.src else (None, None)
         pl = op["pl"]
         if pl["p"]:
@@ -576,8 +578,18 @@ class Inliner:
             return found, op
         return None, None
 
+    def _ret_ty(self, ck):
+        f = self.src.get(ck)
+        return f.locals[0]["ty"] if f is not None else "?"
+
     def _call_closure(self, blk, ckey, cop, vals, dest_local, target, unwind, line):
         """Terminate block `blk` with an inlined invocation of closure `ckey` (value operand `cop`) on `vals`."""
+        if ckey == "<fn>":
+            b = self.blocks[blk]
+            b["term"] = {"k": "call", "f": copy.deepcopy(cop), "args": vals, "atys": ["?"] * len(vals),
+                         "dest": {"l": dest_local, "p": []} if dest_local is not None else None, "dty": "?",
+                         "t": target, "unwind": unwind if unwind is not None else "continue", "line": line, "exp": False}
+            return
         cl = self.src[ckey]
         if cl.rec.get("dk") != "Closure":
             self._splice(blk, cl, vals, {"l": dest_local, "p": []} if dest_local is not None else None, target, unwind, line)
@@ -630,7 +642,7 @@ class Inliner:
             if idx >= len(args):
                 return False
             ck, cop = self._closure_of(args[idx])
-            if ck is None or ck in self.chain[i]:
+            if ck is None or (ck != "<fn>" and ck in self.chain[i]):
                 return False
             cls[idx] = (ck, cop)
         if t.get("dest") is None or t.get("t") is None:
@@ -638,7 +650,8 @@ class Inliner:
         tmpl["build"](self, i, t, cls)
         self.inlined.append("<%s::%s>" % (kind, name))
         for ck, _cop in cls.values():
-            self.absorbed.add(ck)
+            if ck != "<fn>":
+                self.absorbed.add(ck)
         return True
 
 
@@ -695,7 +708,7 @@ def _closure_then(inl, blk, t, cl, vals, wrap):
     """blk: r = closure(vals); then dest = wrap(r) (wrap None: dest = r)."""
     line = t.get("line", 0)
     ck, cop = cl
-    rl = inl._new_local(inl.src[ck].locals[0]["ty"])
+    rl = inl._new_local(inl._ret_ty(ck))
     nxt = inl._new_block(inl.depth[blk], inl.chain[blk], inl.blocks[blk]["cleanup"], line)
     inl._call_closure(blk, ck, cop, vals, rl, nxt, t.get("unwind"), line)
     _finish(inl, nxt, t, wrap(_mv(rl)) if wrap else {"k": "use", "op": _mv(rl)})
@@ -846,7 +859,7 @@ def _iter_loop(inl, i, t, cl, by_ref, on_item, on_end, self_is_ref=True):
     on_end(end)
     item = _variant_field({"l": nx, "p": []}, "Some", 1, OPT)
     ck, cop = cl
-    rl = inl._new_local(inl.src[ck].locals[0]["ty"])
+    rl = inl._new_local(inl._ret_ty(ck))
     after = inl._new_block(d, ch, cleanup, line)
     val = _ref_of(inl, body, copy.deepcopy(item), line) if by_ref else _mvp(copy.deepcopy(item))
     inl._call_closure(body, ck, cop, [val], rl, after, t.get("unwind"), line)
